@@ -96,8 +96,24 @@ void j_accum(Ctx & c, int64_t a, int64_t n, int64_t)
       c01_class(c, f->entry.c_str(), (int)ci, a, n, e, r.v, false);
       }
   }
+Fn ADD_SELF[2], SUB_SELF[2];
+void j_self(Ctx & c, int64_t a, int64_t, int64_t)
+  {
+  if(!model_finite(a)) return;
+  c.stratum("aliased-operands");
+  i128 e = (i128)a + a; c01_strata(c, a, a, e);
+  for(int k = 0; k < 2; ++k)
+    for(size_t ci = 0; ci < g_cfgs.size(); ++ci)
+      {
+      CallRes r = c.call(ADD_SELF[k].f[ci], a, 0), z = c.call(SUB_SELF[k].f[ci], a, 0);
+      if(r.sig || z.sig) { c.signal_event((int)ci, ADD_SELF[k].entry.c_str(), a, 0, r.sig ? r.sig : z.sig); continue; }
+      c01_class(c, ADD_SELF[k].entry.c_str(), (int)ci, a, 0, e, r.v, false);
+      c01_class(c, SUB_SELF[k].entry.c_str(), (int)ci, a, 0, 0, z.v, false);
+      }
+  }
 void c01_init()
   {
+  ADD_SELF[0] = resolve("addeq_self"); ADD_SELF[1] = resolve("addeq_ref_self"); SUB_SELF[0] = resolve("subeq_self"); SUB_SELF[1] = resolve("subeq_ref_self");
   auto mk = [](std::initializer_list<const char *> v, std::initializer_list<const char *> nanv) { std::vector<Op> o; for(auto n : v) o.push_back({ resolve(n), false }); for(auto n : nanv) o.push_back({ resolve(n), true }); return o; };
   ADD = mk({ "add_ff", "addeq_ff", "fn_add_ff" }, { "add_isnan" });
   SUB = mk({ "sub_ff", "subeq_ff", "fn_sub_ff" }, { "sub_isnan" });
@@ -117,9 +133,12 @@ void c01_init()
 extern Property P_C01;
 void c01_run(Ctx & c)
   {
-  const Check & ADDC = P_C01.checks[0], & SUBC = P_C01.checks[1], & CONSTC = P_C01.checks[2], & ACC = P_C01.checks[3];
+  const Check & ADDC = P_C01.checks[0], & SUBC = P_C01.checks[1], & CONSTC = P_C01.checks[2], & ACC = P_C01.checks[3], & SELF = P_C01.checks[4];
   const auto & L = lattice();
   uint64_t idx = 0;
+  for(int64_t a : L) if(c.mine(idx++)) c.run_check(SELF, a);
+  { uint64_t m = c.share(c.n(100000, 10000000));
+    for(uint64_t i = 0; i < m; ++i) c.run_check(SELF, (i & 1) ? c.rng.logu() : clamp_finite(((c.rng.next() & 1) ? P63 : -P63) / 2 + c.rng.range(-70000, 70000))); }
   for(int64_t a : L) for(int64_t b : L) { if(c.mine(idx++)) { c.run_check(ADDC, a, b); c.run_check(SUBC, a, b); } }
   uint64_t n = c.share(c.n(400000, 40000000));
   for(uint64_t i = 0; i < n; ++i)
@@ -161,8 +180,9 @@ Property P_C01 = { "C01", c01_init, c01_run,
   { { "add", j_add, "a+b over add_ff, addeq_ff, fn_add_ff, add_isnan and (signs permitting) the guarded call-site shapes; a,b raw" },
     { "sub", j_sub, "a-b over sub_ff, subeq_ff, fn_sub_ff, sub_isnan and guarded shapes; a,b raw" },
     { "const", j_const, "a (+/-) K and K (+/-) a with compile-time constant K = CONSTS[b]; a raw" },
-    { "accum", j_accum, "s=a; repeat b times s+=a (and s-=(-a)); only the last step may overflow" } },
-  { "in-range", "positive-overflow", "negative-overflow", "exact=-2^63", "exact=max", "exact=lowest", "guard-pp", "guard-nn", "guard-pn", "guard-np", "const-operand", "accumulate" },
+    { "accum", j_accum, "s=a; repeat b times s+=a (and s-=(-a)); only the last step may overflow" },
+    { "self", j_self, "aliased compound assignment: x += x and x -= x on one object (directly and through two references); a raw" } },
+  { "aliased-operands", "in-range", "positive-overflow", "negative-overflow", "exact=-2^63", "exact=max", "exact=lowest", "guard-pp", "guard-nn", "guard-pn", "guard-np", "const-operand", "accumulate" },
   "exact result within 65536 raw of max()/lowest() or outside [lowest(),max()] (expected NaN); distinct by (a,b)", {}, {} };
 Registrar R_C01(&P_C01);
 
@@ -215,8 +235,48 @@ template<int TI> void j_mul_int(Ctx & c, int64_t a, int64_t nraw, int64_t)
       else if(!model_isnan(r.v)) c.violation(f->entry + "/out-of-range/not-nan", (int)ci, a, nraw, 0, i2s(r.v), "NaN (exact " + i128s(E) + ")");
       }
   }
+struct KScalar { const char * tag; i128 K; Fn mul_k, kmul, muleq_k, div_k, diveq_k; };
+std::vector<KScalar> KS;
+void ks_init()
+  {
+  if(!KS.empty()) return;
+  struct { const char * t; i128 k; } v[] = { { "i2", 2 }, { "i3", 3 }, { "i4", 4 }, { "im1", -1 }, { "i0", 0 }, { "i65536", 65536 }, { "l2p20", (i128)1 << 20 }, { "u16_8", 8 }, { "lprime", 1000000007 }, { "u64big", ((i128)1 << 63) + 1 } };
+  for(auto & x : v) { std::string t = x.t; KS.push_back({ x.t, x.k, resolve(("mul_k_" + t).c_str()), resolve(("kmul_" + t).c_str()), resolve(("muleq_k_" + t).c_str()), resolve(("div_k_" + t).c_str()), resolve(("diveq_k_" + t).c_str()) }); }
+  }
+// a * K, K * a, a *= K with K a compile-time constant at the call site; b = index of the constant
+void j_mul_const(Ctx & c, int64_t a, int64_t which, int64_t)
+  {
+  if(!model_finite(a) || which < 0 || which >= (int64_t)KS.size()) return;
+  KScalar & k = KS[(size_t)which]; i128 E = (i128)a * k.K; bool in = E >= RAW_LOWEST && E <= RAW_MAX;
+  c.stratum("constant-scalar-multiplier"); if(!in) c.nontrivial(hash3(28, a, which));
+  for(Fn * f : { &k.mul_k, &k.kmul, &k.muleq_k })
+    for(size_t ci = 0; ci < g_cfgs.size(); ++ci)
+      {
+      CallRes r = c.call(f->f[ci], a, 0);
+      if(r.sig) { c.signal_event((int)ci, f->entry.c_str(), a, which, r.sig); continue; }
+      if(in ? r.v != (int64_t)E : !model_isnan(r.v)) c.violation(f->entry + (in ? "/in-range/wrong-value" : "/out-of-range/not-nan"), (int)ci, a, which, 0, i2s(r.v), in ? i128s(E) : "NaN");
+      }
+  }
+Fn MUL_SELF[2];
+void j_mul_self(Ctx & c, int64_t a, int64_t, int64_t)
+  {
+  if(!model_finite(a)) return;
+  c.stratum("aliased-multiply");
+  i128 P = (i128)a * a; bool fits64 = P < P63, outside = P > (i128)RAW_MAX * 65536;
+  if(!fits64) c.nontrivial(hash3(29, a, a));
+  for(int k = 0; k < 2; ++k)
+    for(size_t ci = 0; ci < g_cfgs.size(); ++ci)
+      {
+      CallRes r = c.call(MUL_SELF[k].f[ci], a, 0);
+      if(r.sig) { c.signal_event((int)ci, MUL_SELF[k].entry.c_str(), a, 0, r.sig); continue; }
+      if(model_isnan(r.v)) { if(fits64) c.violation(MUL_SELF[k].entry + "/raw-product-fits-int64/nan", (int)ci, a, 0, 0, i2s(r.v), i128s(P) + "/65536"); continue; }
+      i128 d = (i128)r.v * 65536 - P; if(d < 0) d = -d;
+      if(outside || d > 65536 || !model_finite(r.v)) c.violation(MUL_SELF[k].entry + (outside ? "/product-outside-range/not-nan" : "/wrong-value"), (int)ci, a, 0, 0, i2s(r.v), "NaN or " + i128s(P) + "/65536");
+      }
+  }
 void c02_init()
   {
+  MUL_SELF[0] = resolve("muleq_self"); MUL_SELF[1] = resolve("muleq_ref_self"); ks_init();
   MUL = { resolve("mul_ff"), resolve("muleq_ff"), resolve("fn_mul_ff") };
   for(int i = 0; i < 8; ++i) { std::string t = INT_TYPES[i].tag; MULI[i] = { resolve(("mul_f" + t).c_str()), resolve(("mul_" + t + "f").c_str()), resolve(("muleq_f" + t).c_str()) }; }
   }
@@ -229,9 +289,29 @@ int64_t mul_complement(Rng & r, int64_t a, i128 T)
   }
 void c02_run(Ctx & c)
   {
-  const Check & M = P_C02.checks[0];
+  const Check & M = P_C02.checks[0], & MS = P_C02.checks[9], & MK = P_C02.checks[10];
   const auto & L = lattice();
   uint64_t idx = 0;
+  for(int64_t a : L) if(c.mine(idx++)) c.run_check(MS, a);
+  // square-root frontiers: both operands round sqrt(2^63) (int64 frontier) and sqrt(max*2^16) (value frontier)
+  for(int64_t root : { (int64_t)3037000500ll, (int64_t)777472127994ll })
+    {
+    for(int64_t d = -65536 + c.shard; d <= 65536; d += c.nshards) { c.run_check(MS, root + d); c.run_check(MS, -(root + d)); }
+    for(int64_t da = -48; da <= 48; ++da) for(int64_t db = -48; db <= 48; ++db) if(c.mine(idx++)) { c.run_check(M, root + da, root + db); c.run_check(M, -(root + da), root + db); }
+    }
+  // compile-time constant multipliers
+  for(size_t k = 0; k < KS.size(); ++k)
+    {
+    for(int64_t a : L) if(c.mine(idx++)) c.run_check(MK, a, (int64_t)k);
+    uint64_t m = c.share(c.n(20000, 2000000));
+    for(uint64_t i = 0; i < m; ++i)
+      {
+      int64_t a = (i & 1) ? c.rng.logu() : (KS[k].K == 0 ? c.rng.finite() : clamp_finite(((c.rng.next() & 1) ? P63 : -P63) / KS[k].K + c.rng.range(-4, 4)));
+      c.run_check(MK, a, (int64_t)k);
+      }
+    }
+  { uint64_t m = c.share(c.n(100000, 10000000));
+    for(uint64_t i = 0; i < m; ++i) c.run_check(MS, (i & 1) ? c.rng.logu() : (int64_t)3037000499ll + c.rng.range(-100000, 100000)); } // round sqrt(2^63)
   for(int64_t a : L) for(int64_t b : L) if(c.mine(idx++)) c.run_check(M, a, b);
   const i128 T[] = { P63, -P63, P63 - 1, -P63 - 1, (i128)RAW_MAX * 65536, (i128)RAW_LOWEST * 65536, (i128)RAW_MAX * 65536 + 65536, (i128)1 << 79, -((i128)1 << 79), (i128)1 << 62 };
   uint64_t n = c.share(c.n(600000, 60000000));
@@ -279,8 +359,10 @@ void c02_run(Ctx & c)
 Property P_C02 = { "C02", c02_init, c02_run,
   { { "mul", j_mul, "a*b over mul_ff, muleq_ff, fn_mul_ff; a,b raw" },
     { "mul_i8", j_mul_int<0>, "fixed*int8, int8*fixed, *=; a raw, b scalar" }, { "mul_i16", j_mul_int<1>, "" }, { "mul_i32", j_mul_int<2>, "" }, { "mul_i64", j_mul_int<3>, "" },
-    { "mul_u8", j_mul_int<4>, "" }, { "mul_u16", j_mul_int<5>, "" }, { "mul_u32", j_mul_int<6>, "" }, { "mul_u64", j_mul_int<7>, "b holds the uint64 bit pattern" } },
-  { "product-fits-int64", "product-outside-range", "product-between", "negative-inexact", "scalar-in-range", "scalar-out-of-range", "scalar-beyond-2^31", "u64-scalar>=2^63" },
+    { "mul_u8", j_mul_int<4>, "" }, { "mul_u16", j_mul_int<5>, "" }, { "mul_u32", j_mul_int<6>, "" }, { "mul_u64", j_mul_int<7>, "b holds the uint64 bit pattern" },
+    { "mul_self", j_mul_self, "x *= x on one object (directly and through two references); a raw" },
+    { "mul_const", j_mul_const, "a*K, K*a, a*=K with a literal integer K at the call site (2,3,4,-1,0,65536,2^20,uint16 8,1000000007,uint64 2^63+1); a raw, b index of K" } },
+  { "constant-scalar-multiplier", "aliased-multiply", "product-fits-int64", "product-outside-range", "product-between", "negative-inexact", "scalar-in-range", "scalar-out-of-range", "scalar-beyond-2^31", "u64-scalar>=2^63" },
   "raw product within 2^40 of the int64 frontier or not fitting int64 (fixed*fixed); scalar product within 2^32 of 2^63 or out of range; distinct by (a,b[,type])", {}, {} };
 Registrar R_C02(&P_C02);
 
@@ -329,17 +411,56 @@ template<int TI> void j_div_int(Ctx & c, int64_t a, int64_t nraw, int64_t)
       if((i128)r.v != q && (i128)r.v != fl) c.violation(f->entry + "/wrong-quotient", (int)ci, a, nraw, 0, i2s(r.v), i128s(q));
       }
   }
+void j_div_const(Ctx & c, int64_t a, int64_t which, int64_t)
+  {
+  if(!model_finite(a) || which < 0 || which >= (int64_t)KS.size()) return;
+  KScalar & k = KS[(size_t)which];
+  c.stratum("constant-scalar-divisor"); if(k.K == 0 || k.K == -1) c.nontrivial(hash3(38, a, which));
+  i128 q = 0, fl = 0;
+  if(k.K != 0) { q = (i128)a / k.K; fl = q; if(((i128)a % k.K != 0) && ((a < 0) != (k.K < 0))) fl = q - 1; }
+  for(Fn * f : { &k.div_k, &k.diveq_k })
+    for(size_t ci = 0; ci < g_cfgs.size(); ++ci)
+      {
+      CallRes r = c.call(f->f[ci], a, 0);
+      if(r.sig) { c.signal_event((int)ci, f->entry.c_str(), a, which, r.sig); continue; }
+      if(k.K == 0) { if(!model_isnan(r.v)) c.violation(f->entry + "/zero-divisor/not-nan", (int)ci, a, which, 0, i2s(r.v), "NaN"); continue; }
+      if((i128)r.v != q && (i128)r.v != fl) c.violation(f->entry + "/wrong-quotient", (int)ci, a, which, 0, i2s(r.v), i128s(q));
+      }
+  }
+Fn DIV_SELF[2];
+void j_div_self(Ctx & c, int64_t a, int64_t, int64_t)
+  {
+  if(!model_finite(a)) return;
+  c.stratum("aliased-divide");
+  i128 aa = a < 0 ? -(i128)a : (i128)a; bool small = aa < ((i128)1 << 47);
+  for(int k = 0; k < 2; ++k)
+    for(size_t ci = 0; ci < g_cfgs.size(); ++ci)
+      {
+      CallRes r = c.call(DIV_SELF[k].f[ci], a, 0);
+      if(r.sig) { c.signal_event((int)ci, DIV_SELF[k].entry.c_str(), a, 0, r.sig); continue; }
+      if(a == 0) { if(!model_isnan(r.v)) c.violation(DIV_SELF[k].entry + "/zero-divisor/not-nan", (int)ci, a, 0, 0, i2s(r.v), "NaN"); continue; }
+      if(model_isnan(r.v) ? small : r.v != ONE) c.violation(DIV_SELF[k].entry + "/x/x-not-one", (int)ci, a, 0, 0, i2s(r.v), small ? "65536" : "65536 or NaN");
+      }
+  }
 void c03_init()
   {
+  DIV_SELF[0] = resolve("diveq_self"); DIV_SELF[1] = resolve("diveq_ref_self"); ks_init();
   DIV = { resolve("div_ff"), resolve("diveq_ff"), resolve("fn_div_ff") };
   for(int i = 0; i < 8; ++i) { std::string t = INT_TYPES[i].tag; DIVI[i] = { resolve(("div_f" + t).c_str()), resolve(("diveq_f" + t).c_str()) }; }
   }
 extern Property P_C03;
 void c03_run(Ctx & c)
   {
-  const Check & D = P_C03.checks[0];
+  const Check & D = P_C03.checks[0], & DS = P_C03.checks[9], & DK = P_C03.checks[10];
   const auto & L = lattice();
   uint64_t idx = 0;
+  for(size_t k = 0; k < KS.size(); ++k)
+    {
+    for(int64_t a : L) if(c.mine(idx++)) c.run_check(DK, a, (int64_t)k);
+    uint64_t m = c.share(c.n(20000, 2000000)); for(uint64_t i = 0; i < m; ++i) c.run_check(DK, c.rng.logu(), (int64_t)k);
+    }
+  for(int64_t a : L) if(c.mine(idx++)) c.run_check(DS, a);
+  { uint64_t m = c.share(c.n(100000, 10000000)); for(uint64_t i = 0; i < m; ++i) c.run_check(DS, c.rng.logu()); }
   for(int64_t a : L) for(int64_t b : L) if(c.mine(idx++)) c.run_check(D, a, b);
   // trap pattern: (a << 16) with low 63 bits zero, divisor -1 raw and neighbours
   if(c.shard == 0)
@@ -383,8 +504,10 @@ void c03_run(Ctx & c)
 Property P_C03 = { "C03", c03_init, c03_run,
   { { "div", j_div, "a/b over div_ff, diveq_ff, fn_div_ff; a,b raw" },
     { "div_i8", j_div_int<0>, "fixed/int8 and /=; a raw, b scalar" }, { "div_i16", j_div_int<1>, "" }, { "div_i32", j_div_int<2>, "" }, { "div_i64", j_div_int<3>, "" },
-    { "div_u8", j_div_int<4>, "" }, { "div_u16", j_div_int<5>, "" }, { "div_u32", j_div_int<6>, "" }, { "div_u64", j_div_int<7>, "b holds the uint64 bit pattern" } },
-  { "zero-divisor", "dividend<2^31", "dividend>=2^31", "divisor=+-1raw", "preshift-low63-zero", "scalar-zero-divisor", "scalar-divisor", "scalar-divisor=-1", "u64-divisor>=2^63" },
+    { "div_u8", j_div_int<4>, "" }, { "div_u16", j_div_int<5>, "" }, { "div_u32", j_div_int<6>, "" }, { "div_u64", j_div_int<7>, "b holds the uint64 bit pattern" },
+    { "div_self", j_div_self, "x /= x on one object (directly and through two references); a raw" },
+    { "div_const", j_div_const, "a/K, a/=K with a literal integer K at the call site; a raw, b index of K" } },
+  { "constant-scalar-divisor", "aliased-divide", "zero-divisor", "dividend<2^31", "dividend>=2^31", "divisor=+-1raw", "preshift-low63-zero", "scalar-zero-divisor", "scalar-divisor", "scalar-divisor=-1", "u64-divisor>=2^63" },
   "zero divisor, divisor -1, |a| >= 2^46 raw (at or beyond the pre-shift frontier), scalar divisor 0/-1/beyond 2^31; distinct by (a,b[,type])", {}, {} };
 Registrar R_C03(&P_C03);
 
@@ -405,6 +528,7 @@ void j_cmp(Ctx & c, int64_t a, int64_t b, int64_t)
   }
 void j_unary(Ctx & c, int64_t a, int64_t, int64_t)
   {
+  if(a == INT64_MIN) return; // not a fixed_t value
   bool nan = model_isnan(a);
   c.stratum(nan ? "unary-nan" : "unary-finite");
   if(nan || a == RAW_MAX || a == RAW_LOWEST || a == 0) c.nontrivial(hash3(61, a, 0));
@@ -563,3 +687,7 @@ Property P_C18 = { "C18", c18_init, c18_run,
   { "lattice x every count in [-70,63]" }, { "lattice x every count in [-70,63]" } };
 Registrar R_C18(&P_C18);
 }
+void judge_mul_const(Ctx & c, int64_t a, int64_t which, int64_t d) { ks_init(); j_mul_const(c, a, which, d); }
+void judge_div_const(Ctx & c, int64_t a, int64_t which, int64_t d) { ks_init(); j_div_const(c, a, which, d); }
+size_t const_scalar_count() { ks_init(); return KS.size(); }
+i128 const_scalar_value(size_t which) { ks_init(); return KS[which % KS.size()].K; }
